@@ -91,6 +91,9 @@ class udp(packet_base):
 
         if self.len < udp.MIN_LEN:
             self.msg('(udp parse) warning invalid UDP len %u' % self.len)
+            # Not a header we can make sense of: leave it unparsed so that
+            # it (and whatever follows it) is kept and re-serialised as is.
+            self.parsed = False
             return
 
         #TODO: DHCPv6, etc.
